@@ -2,6 +2,7 @@ import Litep2pVerif.Proofs.Kad.FindNodeRun
 import Litep2pVerif.Proofs.Kad.Engine
 import Litep2pVerif.Proofs.Kad.Values
 import Litep2pVerif.Proofs.Kad.LookupRun
+import Litep2pVerif.Proofs.Kad.EnginePar
 import Litep2pVerif.Generated.Consts
 /-!
 # C15 — Iterative Kademlia lookups terminate with the closest responsive peers
@@ -246,6 +247,68 @@ example :
       .responseFailure 1 5, .next 0 [1, 2], .responseFailure 1 5, .next 0 [2], .next 0 [1, 2]]).2 =
       [.none, .none, .act (.send 2 6), .act (.send 1 5), .none, .act (.failed 1), .none, .none, .none] := by
   refine ⟨by intro x hx; simp at hx, by decide⟩
+
+/-- The hypotheses of the per-query statements at engine level: in an arbitrary engine state `e`
+(other queries active in any state, possibly an older query under the same id `q`), `start` starts an
+iterative lookup (find node, put record, add provider, get record, get providers) under id `q` with
+initial candidates `inPeers`; afterwards comes an arbitrary list `ops` of engine operations — starts,
+responses, failures and `next_action` calls for any ids, active or not, `next_action` visiting the
+queries in any order — in which `q` is not started again and the responses routed to `q` carry true
+distances (nothing is assumed about the messages for other queries). `d` is the distance to the
+target of `q`. A restart of `q` begins a new lookup, to which the statement applies again. -/
+structure EngineInputs (d : Nat → Nat) (U : List Nat) (e : Engine) (q : Nat) (inPeers : List KPeer)
+    (start : EOp) (ops : List EOp) : Prop where
+  keyOk : KeyOk e
+  starts : start.startsLookup q inPeers
+  candsOk : ∀ kp ∈ inPeers, kp.dist = d kp.peer ∧ kp.peer ∈ U ∧ kp.peer ≠ e.localPeer
+  noRestart : ∀ op ∈ ops, op.starts ≠ some q
+  opsOk : ∀ op ∈ ops, op.okFor d U q
+
+/-- **No self, per query id at engine level**: over every interleaving, no request of query `q` goes
+to the local peer (arbitrary clock readings). -/
+theorem engine_no_self (d : Nat → Nat) (U : List Nat) (e : Engine) (q : Nat) (inPeers : List KPeer)
+    (start : EOp) (ops : List EOp) (h : EngineInputs d U e q inPeers start ops) :
+    e.localPeer ∉ sentTo q ((e.step start).1.run ops).2 := by
+  obtain ⟨t, h1, hv⟩ := start_view d U e q inPeers start h.starts h.candsOk
+  obtain ⟨_, r2, _⟩ := run_view d U e.localPeer q ops (e.step start).1 (step_spec e start h.keyOk).1
+    h.noRestart h.opsOk
+    (fun t2 ht2 => by rw [h1] at ht2; cases ht2; rw [hv]; exact ⟨Frontier.init inPeers h.candsOk, rfl⟩)
+  exact fun hm => (r2 _ hm).1 rfl
+
+/-- **No re-query, per query id at engine level**: over every interleaving, query `q` sends at most
+one request to every peer (arbitrary clock readings). -/
+theorem engine_no_requery (d : Nat → Nat) (U : List Nat) (e : Engine) (q : Nat) (inPeers : List KPeer)
+    (start : EOp) (ops : List EOp) (h : EngineInputs d U e q inPeers start ops) :
+    (sentTo q ((e.step start).1.run ops).2).Nodup := by
+  obtain ⟨t, h1, hv⟩ := start_view d U e q inPeers start h.starts h.candsOk
+  exact (run_view d U e.localPeer q ops (e.step start).1 (step_spec e start h.keyOk).1
+    h.noRestart h.opsOk
+    (fun t2 ht2 => by rw [h1] at ht2; cases ht2; rw [hv]; exact ⟨Frontier.init inPeers h.candsOk, rfl⟩)).1
+
+/-- **Parallelism bound, per query id at engine level**: with monotone clock readings, at every
+moment query `q` (if still active) has at most `parallelism` requests in flight (unanswered and not
+older than the peer timeout; every unanswered request for value and provider lookups). -/
+theorem engine_parallelism_bound (d : Nat → Nat) (U : List Nat) (e : Engine) (q : Nat) (inPeers : List KPeer)
+    (start : EOp) (ops : List EOp) (h : EngineInputs d U e q inPeers start ops) (T : Nat)
+    (hclk : eMonotoneFrom T ops) (now : Nat) (hnow : eLastNow T ops ≤ now) :
+    ∀ t, qLookup q ((e.step start).1.run ops).1.queries = some t → t.inFlight now ≤ e.par := by
+  intro t ht
+  exact (run_par d U e.par q ops T (e.step start).1 h.noRestart h.opsOk hclk
+    (start_par d U T e q inPeers start h.starts h.candsOk) t ht).inFlight_le now hnow
+
+/-- Two concurrent lookups with overlapping peers, a lying peer, a response for an id that is not
+active, a response of the wrong kind, and query 2 restarted in the middle of query 1: query 1 asks
+every peer once and never the local peer 0; 2 requests of query 1 are in flight at the end. -/
+example :
+    let e : Engine := { localPeer := 0, repl := 2, par := 2, peerTimeout := 10 }
+    let ops : List EOp := [.startGetRecord 2 [⟨5, 9⟩, ⟨6, 1⟩] .one false, .next 0 [2, 1], .next 0 [2, 1], .next 1 [1, 2],
+      .response 1 5 (.findNode [⟨0, 7⟩, ⟨5, 2⟩, ⟨6, 4⟩, ⟨8, 1⟩]), .response 9 5 (.findNode []), .next 1 [1, 1],
+      .startGetRecord 2 [⟨5, 9⟩] .one false, .next 2 [2, 1], .response 1 8 .putValue, .next 3 [2, 1], .next 3 [1]]
+    KeyOk e ∧
+    sentTo 1 ((e.step (.startFindNode 1 [⟨5, 2⟩])).1.run ops).2 = [5, 8, 6] ∧
+    sentTo 2 ((e.step (.startFindNode 1 [⟨5, 2⟩])).1.run ops).2 = [6, 5, 5] ∧
+    (qLookup 1 ((e.step (.startFindNode 1 [⟨5, 2⟩])).1.run ops).1.queries).map (·.inFlight 3) = some 1 := by
+  refine ⟨by intro x hx; simp at hx, by decide, by decide, by decide⟩
 
 /-- The default parallelism factor (regenerated from `kademlia/mod.rs`) satisfies the hypothesis of
 `terminates`. -/
@@ -508,6 +571,12 @@ open Litep2pVerif.Props.C15 in
 #print axioms success_closer_contacted_needs_injectivity
 open Litep2pVerif.Props.C15 in
 #print axioms terminal_once
+open Litep2pVerif.Props.C15 in
+#print axioms engine_no_self
+open Litep2pVerif.Props.C15 in
+#print axioms engine_no_requery
+open Litep2pVerif.Props.C15 in
+#print axioms engine_parallelism_bound
 open Litep2pVerif.Props.C15 in
 #print axioms default_parallelism_pos
 open Litep2pVerif.Props.C15 in
